@@ -94,6 +94,9 @@ pub struct Kid {
     pub seq: u32,
     // for victims in directed scenarios
     pub victim: bool,
+    /// grandchildren of a nested child (it is a join_all over them)
+    pub nested: Vec<u32>,
+    pub parent: Option<u32>,
 }
 
 impl Kid {
@@ -409,6 +412,8 @@ impl World {
             pos: 0,
             seq: 0,
             victim: false,
+            nested: Vec::new(),
+            parent: None,
         });
         (k.len() - 1) as u32
     }
@@ -442,7 +447,9 @@ impl World {
 
     fn fair_bound(&self) -> u64 {
         let g = self.groups_bound.get();
-        let h = self.model_len.get() as u64;
+        // population at wake time: the driver's model, or - during a poll in which an adapter has
+        // just pulled new futures the driver has not seen yet - accepted minus yielded
+        let h = (self.model_len.get() as u64).max(self.accepted_n.get().saturating_sub(self.yielded_n.get()));
         (g + 1) * (h + 4 + self.cap_total.get() / 32) + 8
     }
 
@@ -606,6 +613,31 @@ impl World {
             self.kid_pending_tail(id, cx);
             None
         }
+    }
+
+    // nested children: the same bookkeeping as `fut_poll`, split around the inner poll
+    pub fn nested_poll_begin(&self, id: u32, addr: usize, cx: &Context<'_>) -> bool {
+        let _g = leave_crate();
+        let ok = self.kid_poll_entry(id, addr, cx);
+        if !ok {
+            self.event(ev::KID_POLL, id as u64, 0);
+        }
+        ok
+    }
+    pub fn nested_poll_ready(&self, id: u32) {
+        {
+            let mut ks = self.kids.borrow_mut();
+            let k = &mut ks[id as usize];
+            k.state = KState::Done;
+            k.finished_call = Some(self.call_no.get());
+        }
+        self.finished_in_call.borrow_mut().push(id);
+        self.pending_streak.set(0);
+        self.event(ev::KID_POLL, id as u64, 1);
+    }
+    pub fn nested_poll_pending(&self, id: u32, cx: &Context<'_>) {
+        self.event(ev::KID_POLL, id as u64, 0);
+        self.kid_pending_tail(id, cx);
     }
 
     /// Source poll: `Some(Some(seq))` item, `Some(None)` end, `None` pending.
